@@ -37,7 +37,7 @@ impl Family for C05Seq {
     let n_unsub = *rng.pick(&[1usize, 1, 1, 2, 3]);
     for _ in 0..n_unsub {
       let p = rng.below(order.len() as u64 + 1) as usize;
-      order.insert(p, if use_using && rng.below(2) == 0 { ACT_DROP_USING } else { ACT_UNSUB });
+      order.insert(p, if use_using && rng.below(2) == 0 { if rng.below(3) == 0 { ACT_DROP_USING_UNWINDING } else { ACT_DROP_USING } } else { ACT_UNSUB });
     }
     let mut re = Vec::new();
     if rng.below(6) == 0 {
